@@ -210,5 +210,32 @@ def rule_suppress(prog):
     return res
 
 
+def rule_complete(prog):
+    """R-SEQ-COMPLETE: wherever the run time looks the typed keys up in the sequence trie, the "this is a complete
+    sequence" outcome (HasValue) is matched and leads to do_successful_sequence_termination."""
+    res = RuleResult("R-SEQ-COMPLETE", "a completed sequence found by a trie lookup is fired at every lookup place", floor=2)
+    RES = "kanata_parser::trie::GetOrDescendentExistsResult"
+    LOOK = "kanata_parser::trie::Trie::get_or_descendant_exists"
+    TERM = KAN + "sequences::do_successful_sequence_termination"
+    for f in prog.fns.values():
+        if f.crate != "kanata_state_machine" or f.derive:
+            continue
+        looks = blocks_calling(f, f.reachable(), [LOOK])
+        if not looks:
+            continue
+        res.fn(f)
+        fires = False
+        for sw in discr_switches(prog, f, RES):
+            if "HasValue" in sw.arms and blocks_calling(f, sw.arm_region("HasValue"), [TERM]):
+                fires = True
+        res.inst("lookup-place/" + f.norm, lookups=len(looks), has_value_fires=fires)
+        res.oblige(fires)
+        if not fires:
+            res.viol("lookup-place/" + f.norm, f.loc,
+                     "%s looks the typed keys up in the sequence trie (%d lookups) but never matches the HasValue outcome into "
+                     "do_successful_sequence_termination: a sequence completed at this point does not fire" % (f.norm.split("::")[-1], len(looks)))
+    return res
+
+
 def run_all(prog):
-    return [rule_conflict(prog), rule_bits(prog), rule_reset(prog), rule_norm(prog), rule_suppress(prog)]
+    return [rule_conflict(prog), rule_bits(prog), rule_reset(prog), rule_norm(prog), rule_suppress(prog), rule_complete(prog)]
